@@ -20,7 +20,8 @@ from rx import F
 OPS = ["send:1:61", "recv", "ping:70", "close:1000:-:1000", "close:1001:6279:3000", "close:70000:-:1000",
        "sclose:1002:78", "sclose:-1:-", "shutdown", "rdf:1",
        "close:65536:-:1000", "sclose:65536:-", "close:1000:-:0",      # the exact upper bound; a zero timeout
-       "abort"]
+       "abort",
+       "close:1000:6f6b:1000", "sclose:1000:627965"]      # the default status WITH a reason (both writers)
 
 
 def scripts():
